@@ -222,7 +222,7 @@ class Observation:
             #     We may want to consider an API for this.
             # Proposed API:
             # value = operator.attrgetter(step.key)(processor)
-            if "pipeline." in key:
+            if "pipeline." in key and ".arguments" in key:
                 model_name: str = key[: key.find(".arguments")]
                 model_enabled: str = model_name + ".enabled"
                 if not processor.get(model_enabled):
